@@ -6,6 +6,16 @@ ALL = ["C%02d" % i for i in range(1, 21)]
 
 # id -> (category, technique, level text, level note, design section)
 CHECKS = {
+ "C07": ("exploration",
+         "differential runtime monitoring: every (term, doc, tf, positions), doc_freq, field norm and token total of generated segments read back (scan, seek programs, block cursor, position skipping) against a naive model inverted index",
+         "Held on the segments generated (quick ~250, thorough ~5 600 segments / 1.2e8 docs): term dictionary == sorted distinct model terms for all 10 value types incl. JSON paths; postings under Basic/WithFreqs/WithFreqsAndPositions by scan and by generated seek programs; posting-list lengths 1,127..129,255..257,k*128(+-1) up to millions, doc-gap widths 1..22 bits, tf/position counts crossing 128, terms of 0..65 530 bytes; degrade rules when more is requested than indexed. Gaps wider than ~22 bits and merged/sorted segments are out of this check (C04/C17).",
+         "Trusted: the model tokenisation rules for default/raw/whitespace tokenizers; unique planted terms; public Term constructors.",
+         "DESIGN.md §7 C07"),
+ "C20": ("exploration",
+         "differential runtime monitoring with exhaustive damage enumeration on small files: own footer parser + crc32 vs ManagedDirectory/Index validation on intact and damaged copies of generated indexes",
+         "Held on the indexes generated (quick 24 / ~5e6 damaged copies, thorough 1000 / ~2.5e8): intact files validate, open_read returns exactly the body, footer carries crc32(body) and the current version (also under short writes); for every segment file with a body <= 4 KB every bit flip, every truncation length, inserts, appends and 256 multi-byte damages are detected (exhaustive for those files; sampled for larger ones), at ManagedDirectory level always and through Index::validate_checksum on a sample; versions outside [oldest supported, current] are refused with IncompatibleIndex. A CRC32 collision is possible in principle and has its own signature.",
+         "Trusted: the harness' footer parser and crc32fast; MonDir images.",
+         "DESIGN.md §7 C20"),
  "C04": ("translation_validation",
          "run-time translation validation of every merge performed: canonical dump of the merged segment vs dumps of the sources' live documents; forced merge-thread schedules through the monitoring Directory checked against the sequential model",
          "Each merge actually executed (IndexWriter::merge on 1-6 segments with/without deletes, fully deleted sources, big/small stores, sorted or not; merge_indices) is validated as a translation: stored document, field norm, every fast-field value and every (term, tf, positions) of every live source document reappear unchanged, each source contiguous and in order (or the output in sort order). Forced schedules park the merge thread at its k-th storage operation while deletes+commits, rollbacks, other merges, GC or writer drop happen; afterwards the searcher equals the sequential model. Held on the merges and schedules executed only.",
